@@ -28,7 +28,7 @@ import (
 	"github.com/dolthub/dolt/go/zzverif/vsql"
 )
 
-const c08Rule = "one server, one fresh database per case. Builder session (autocommit, @@dolt_allow_commit_conflicts=1): tables t(pk,c1,c2), u(pk,v), d(pk,n) with 3-6 rows (+ optionally 150/400 bulk rows so trees have two levels), commit; a drawn subset of features: file remote `origin` (push main, later fetch so remotes/origin/main lags; optionally a branch pushed and then deleted locally so only the remote-tracking ref holds it), tags (one optionally on the head of a branch that is deleted afterwards), an early dolt_gc() in the middle of the history (so later garbage sits in the old generation), a deleted branch with two unique commits, in-progress conflicted dolt_merge (optionally over an uncommitted change to a table main did not touch), dolt_cherry_pick, dolt_revert, interactive dolt_rebase stopped at a conflict (plan optionally edited: squash / reword / drop), 1-2 stashes, staged != working on main, an untracked table. Then 0-3 writer sessions (each on its own branch, incl. conflicted ones) open a transaction and insert 1-2 fresh rows; the GC statement (mode default | --full | --shallow, archive level unset | 0 | 1) runs from a fresh session (the builder session still connected, or disconnected first), from the builder session, or from a session that itself has an open transaction with a pending insert; the writers run 0-2 more inserts and finish with COMMIT or dolt_commit('-am'). Oracle: vsql.Fingerprint (+ the dolt_rebase plan) before GC == after GC; closure walk (types.WalkAddrsFromNomsValue from every dataset head over the server's chunk store) finds every address, after GC, after the writers committed and after a second GC (mode drawn again); after the writers finish every fingerprint line of a branch nobody wrote is unchanged and the written branches contain exactly the old rows plus the written ones; second GC leaves the fingerprint unchanged; finally every in-progress operation is either aborted (working and staged tables of that branch must equal the snapshot taken before the operation started, when no writer touched the branch), or resolved and committed/continued (must succeed), and the final fingerprint has no unreadable part. Non-trivial (DESIGN): at least 3 of {stash, in-progress merge/cherry-pick/revert, in-progress rebase, staged != working, tag, remote ref} and garbage was really collected (the .dolt directory shrank or the deleted branch's head commit is no longer in the store); distinct by feature set + modes + writer plan."
+const c08Rule = "one server, one fresh database per case. Builder session (autocommit, @@dolt_allow_commit_conflicts=1): tables t(pk,c1,c2), u(pk,v), d(pk,n) with 3-6 rows (+ optionally 150/400 bulk rows so trees have two levels), commit; a drawn subset of features: file remote `origin` (push main, later fetch so remotes/origin/main lags; optionally a branch pushed and then deleted locally so only the remote-tracking ref holds it), tags (one optionally on the head of a branch that is deleted afterwards), in 3 of 4 cases an early collection in the middle of the history (dolt_gc() or dolt_gc('--full'), so later garbage and older data sit in the old generation) followed in 4 of 5 of those by a demotion of data that was committed on branch `keep` before it (tag + reset --hard HEAD~1, reset --soft HEAD~1, or reset --soft + stash: afterwards only a tag, a working set or a stash reaches that data), the collection under test then being --full in half of these cases (orders default→full, full→default, full→full, default→default all occur, and the second GC after the writers is --full in half of all cases), a deleted branch with two unique commits, in-progress conflicted dolt_merge (optionally over an uncommitted change to a table main did not touch), dolt_cherry_pick, dolt_revert, interactive dolt_rebase stopped at a conflict (plan optionally edited: squash / reword / drop), 1-2 stashes, staged != working on main, an untracked table. Then 0-3 writer sessions (each on its own branch, incl. conflicted ones) open a transaction and insert 1-2 fresh rows; the GC statement (mode default | --full | --shallow, archive level unset | 0 | 1) runs from a fresh session (the builder session still connected, or disconnected first), from the builder session, or from a session that itself has an open transaction with a pending insert; the writers run 0-2 more inserts and finish with COMMIT or dolt_commit('-am'). Oracle: vsql.Fingerprint (+ the dolt_rebase plan) before GC == after GC; closure walk (types.WalkAddrsFromNomsValue from every dataset head over the server's chunk store) finds every address, after GC, after the writers committed and after a second GC (mode drawn again); after the writers finish every fingerprint line of a branch nobody wrote is unchanged and the written branches contain exactly the old rows plus the written ones; second GC leaves the fingerprint unchanged; finally every in-progress operation is either aborted (working and staged tables of that branch must equal the snapshot taken before the operation started, when no writer touched the branch), or resolved and committed/continued (must succeed), and the final fingerprint has no unreadable part. Non-trivial (DESIGN): at least 3 of {stash, in-progress merge/cherry-pick/revert, in-progress rebase, staged != working, tag, remote ref} and garbage was really collected (the .dolt directory shrank or the deleted branch's head commit is no longer in the store); distinct by feature set + modes + writer plan."
 
 var c08Assumptions = []string{
 	"online GC uses the session-aware safepoint controller (the default): connections stay usable after dolt_gc, so sessions do not reconnect",
@@ -286,8 +286,15 @@ func c08Run(rt *rapid.T, srv *vsql.Server, admin *vsql.Session, scratch string, 
 	remoteOnlyBranch := withRemote && rapid.Bool().Draw(rt, "remote_only_branch")
 	withTag := rapid.IntRange(0, 3).Draw(rt, "tag") > 0
 	withGone := rapid.IntRange(0, 4).Draw(rt, "deleted_branch") > 0
-	tagGone := withGone && rapid.IntRange(0, 3).Draw(rt, "tag_deleted_branch_head") == 0
-	preGC := rapid.IntRange(0, 2).Draw(rt, "early_gc") == 0
+	tagGone := withGone && rapid.IntRange(0, 2).Draw(rt, "tag_deleted_branch_head") == 0
+	// an earlier collection in the middle of the history (so that later garbage and later "demoted" data sit
+	// in the old generation), followed by a demotion: data committed on a branch before that collection stops
+	// being reachable from any branch and stays reachable only from a tag, a working set or a stash
+	earlyGC := rapid.SampledFrom([]string{"default", "default", "--full", "none"}).Draw(rt, "early_gc")
+	demote := "none"
+	if earlyGC != "none" {
+		demote = rapid.SampledFrom([]string{"tag_reset_hard", "tag_reset_hard", "reset_soft", "reset_soft_stash", "none"}).Draw(rt, "demotion_after_early_gc")
+	}
 	opKinds := []string{}
 	for _, k := range []string{"merge", "cherry", "revert", "rebase"} {
 		if rapid.IntRange(0, 2).Draw(rt, "op_"+k) > 0 {
@@ -353,9 +360,26 @@ func c08Run(rt *rapid.T, srv *vsql.Server, admin *vsql.Session, scratch string, 
 		x("CALL dolt_commit('-am', '" + b + " change 2')")
 	}
 	x("CALL dolt_checkout('main')")
-	if preGC {
-		x("CALL dolt_gc()")
-		c.feat("early_gc")
+	if earlyGC != "none" {
+		x(c08GCStmt(earlyGC, "unset"))
+		c.feat("early_gc=" + earlyGC)
+	}
+	switch demote {
+	case "tag_reset_hard":
+		x("CALL dolt_tag('vkeep', 'keep')")
+		x("CALL dolt_checkout('keep')")
+		x("CALL dolt_reset('--hard', 'HEAD~1')")
+		x("CALL dolt_checkout('main')")
+	case "reset_soft", "reset_soft_stash":
+		x("CALL dolt_checkout('keep')")
+		x("CALL dolt_reset('--soft', 'HEAD~1')")
+		if demote == "reset_soft_stash" {
+			x("CALL dolt_stash('push', 'demoted')")
+		}
+		x("CALL dolt_checkout('main')")
+	}
+	if demote != "none" {
+		c.feat("demote=" + demote)
 	}
 	if withRemote {
 		// main moved on since the push: after the fetch remotes/origin/main lags behind main
@@ -503,7 +527,11 @@ func c08Run(rt *rapid.T, srv *vsql.Server, admin *vsql.Session, scratch string, 
 	}
 
 	// ---- GC under test
-	mode := rapid.SampledFrom([]string{"default", "default", "--full", "--full", "--shallow"}).Draw(rt, "gc_mode")
+	modes := []string{"default", "default", "--full", "--full", "--shallow"}
+	if earlyGC != "none" {
+		modes = []string{"--full", "--full", "--full", "default", "default", "--shallow"}
+	}
+	mode := rapid.SampledFrom(modes).Draw(rt, "gc_mode")
 	level := "unset"
 	if mode != "--shallow" {
 		level = rapid.SampledFrom([]string{"unset", "0", "1"}).Draw(rt, "archive_level")
@@ -635,7 +663,7 @@ func c08Run(rt *rapid.T, srv *vsql.Server, admin *vsql.Session, scratch string, 
 	c.closure("after the writers committed")
 
 	// ---- second GC: nothing changes
-	mode2 := rapid.SampledFrom([]string{"default", "--full", "--shallow"}).Draw(rt, "second_gc_mode")
+	mode2 := rapid.SampledFrom([]string{"--full", "default", "--full", "--shallow"}).Draw(rt, "second_gc_mode")
 	level2 := "unset"
 	if mode2 != "--shallow" {
 		level2 = rapid.SampledFrom([]string{"unset", "0", "1"}).Draw(rt, "second_archive_level")
@@ -741,6 +769,10 @@ func c08Run(rt *rapid.T, srv *vsql.Server, admin *vsql.Session, scratch string, 
 	desc := fmt.Sprintf("features=%s main=%d init=%d gc=%s level=%s caller=%s writers=[%s] gc2=%s/%s endings=%s",
 		strings.Join(c.feats, ","), mainVal, nInit, mode, level, caller, strings.Join(wdesc, " "), mode2, level2, strings.Join(endings, ","))
 	classes := []string{"mode=" + mode, "level=" + level, "caller=" + caller, fmt.Sprintf("writers=%d", len(writers)), fmt.Sprintf("rich=%d", rich)}
+	classes = append(classes, fmt.Sprintf("gc_order=%s>%s>%s", earlyGC, mode, mode2))
+	if demote != "none" && (mode == "--full" || mode2 == "--full") {
+		classes = append(classes, "demoted_old_gen_data_then_full_gc")
+	}
 	for _, f := range c.feats {
 		classes = append(classes, "feat:"+f)
 	}
